@@ -87,6 +87,9 @@ pub fn classify(e: &MuxerError) -> Viol {
         MuxerError::Io(err) => {
             if err.kind() == io::ErrorKind::InvalidData && err.to_string().contains("duration overflow") {
                 Viol::GapTooLarge
+            } else if err.to_string().contains("already finalised") {
+                // the container writer's own "finished" refusal (seen after a failed finish)
+                Viol::Finished
             } else {
                 Viol::Io
             }
